@@ -78,6 +78,9 @@ type obs struct {
 	discover int
 }
 
+// dropBetweenRequests, when set by a family, is called between the two requests of dialAndUse.
+var dropBetweenRequests func()
+
 // dialAndUse connects a client with the given options to a scripted or real server and performs
 // two requests plus one on a cloned client.
 func dialAndUse(c *core.Ctx, dial func(context.Context) (net.Conn, error), opts []kmipclient.Option, label string, cluster bool) (o obs, ok bool) {
@@ -99,7 +102,14 @@ func dialAndUse(c *core.Ctx, dial func(context.Context) (net.Conn, error), opts 
 	}
 	defer cl.Close()
 	o.adopted = cl.Version()
-	for k := 0; k < 2; k++ {
+	nreq := 2
+	if dropBetweenRequests != nil {
+		nreq = 4 // the request that meets the dead connection may fail; the ones behind it use the new connection
+	}
+	for k := 0; k < nreq; k++ {
+		if k == 1 && dropBetweenRequests != nil {
+			dropBetweenRequests() // the server ends the connection between two requests: the client reconnects by itself
+		}
 		if p, pv, st := core.Guard(func() { cl.Activate(fmt.Sprintf("id-%d", k)).Exec() }); p {
 			c.Violation(core.PanicSig(pv, st), fmt.Sprintf("request after Dial panicked (%s): %v", label, pv), map[string]any{"stack": st})
 			return o, false
@@ -135,7 +145,17 @@ func scripted(c *core.Ctx, r *core.Rand, i int) {
 		}
 	}
 	var enf kmip.ProtocolVersion
-	srv := script.NewServer(func(rx script.Received, conn *memnet.Conn) *kmip.ResponseMessage {
+	var srv *script.Server
+	if i%3 == 1 {
+		dropBetweenRequests = func() {
+			for _, sc := range srv.Conns() {
+				sc.Close()
+			}
+			c.Count("connections_dropped_between_requests", 1)
+		}
+		defer func() { dropBetweenRequests = nil }()
+	}
+	srv = script.NewServer(func(rx script.Received, conn *memnet.Conn) *kmip.ResponseMessage {
 		bi := rx.Msg.BatchItem[0]
 		if bi.Operation != kmip.OperationDiscoverVersions {
 			return script.OK(rx.Msg, func(int, *kmip.RequestBatchItem) kmip.OperationPayload {
@@ -577,6 +597,63 @@ func reusedOptions(c *core.Ctx, r *core.Rand, i int) {
 	c.Distinct(core.Hash64("reused-options", hist))
 }
 
+// coexistingClients: two clients of one process, connected to servers with different version sets, both alive. What the
+// second one negotiates changes nothing for the first: its Version() and the headers of its later requests stay.
+func coexistingClients(c *core.Ctx, r *core.Rand, i int) {
+	mkServer := func(S []kmip.ProtocolVersion) *script.Server {
+		return script.NewServer(func(rx script.Received, conn *memnet.Conn) *kmip.ResponseMessage {
+			if rx.Msg.BatchItem[0].Operation != kmip.OperationDiscoverVersions {
+				return script.OK(rx.Msg, func(int, *kmip.RequestBatchItem) kmip.OperationPayload {
+					return &payloads.ActivateResponsePayload{UniqueIdentifier: "x"}
+				})
+			}
+			return script.OK(rx.Msg, func(int, *kmip.RequestBatchItem) kmip.OperationPayload {
+				return &payloads.DiscoverVersionsResponsePayload{ProtocolVersion: desc(S)}
+			})
+		})
+	}
+	S1, S2 := subset(1+r.Intn(31)), subset(1+r.Intn(31))
+	w1, _ := highestCommon(all, S1)
+	w2, _ := highestCommon(all, S2)
+	srv1, srv2 := mkServer(S1), mkServer(S2)
+	defer srv1.Close()
+	defer srv2.Close()
+	label := fmt.Sprintf("client 1 to server %s, then client 2 to server %s", fmtSet(S1), fmtSet(S2))
+	cl1, err := kmipclient.Dial("mem", kmipclient.WithDialerUnsafe(func(context.Context) (net.Conn, error) { return srv1.L.Dial() }))
+	if err != nil {
+		c.Violation("C13:dial-fails:coexisting", fmt.Sprintf("Dial fails (%v) although %v is common (%s)", err, w1, label), nil)
+		return
+	}
+	defer cl1.Close()
+	cl2, err := kmipclient.Dial("mem", kmipclient.WithDialerUnsafe(func(context.Context) (net.Conn, error) { return srv2.L.Dial() }))
+	if err != nil {
+		c.Violation("C13:dial-fails:coexisting", fmt.Sprintf("second Dial fails (%v) although %v is common (%s)", err, w2, label), nil)
+		return
+	}
+	defer cl2.Close()
+	c.Count("dials", 2)
+	c.Count("dials.coexisting", 2)
+	c.Distinct(core.Hash64("coexisting", fmtSet(S1), fmtSet(S2)))
+	cl1.Activate("after").Exec()
+	cl2.Activate("after").Exec()
+	for k, x := range []struct {
+		cl   *kmipclient.Client
+		want kmip.ProtocolVersion
+		srv  *script.Server
+	}{{cl1, w1, srv1}, {cl2, w2, srv2}} {
+		if x.cl.Version() != x.want {
+			c.Violation("C13:wrong-version:coexisting", fmt.Sprintf("client %d reports %v, it negotiated %v (%s)", k+1, x.cl.Version(), x.want, label), nil)
+			return
+		}
+		for _, rx := range x.srv.Received() {
+			if rx.Msg.BatchItem[0].Operation != kmip.OperationDiscoverVersions && rx.Msg.Header.ProtocolVersion != x.want {
+				c.Violation("C13:request-carries-other-version:coexisting", fmt.Sprintf("a request of client %d carries %v, it negotiated %v (%s)", k+1, rx.Msg.Header.ProtocolVersion, x.want, label), nil)
+				return
+			}
+		}
+	}
+}
+
 func Spec() *core.Spec {
 	slog.SetDefault(slog.New(slog.NewTextHandler(io.Discard, nil)))
 	return &core.Spec{
@@ -584,10 +661,16 @@ func Spec() *core.Spec {
 		Level: "exploration",
 		Rule: "exhaustive: 31 non-empty client subsets x 32 server subsets of {1.0..1.4} x server behaviour {conformant, discovery unsupported (failed item; failed item without operation echo), lists versions not offered, unordered list, empty list} x {enforced, not enforced} against a scripted server that records every request header " +
 			"(two requests and one cloned client after each Dial; client options given in seeded order with duplicates), plus 31 x 31 against the library's own executor restricted with SetSupportedProtocolVersions; compared with a 10-line reference function. every scripted case through Dial and through DialCluster; sequences of 2-6 default-set clients against servers with different subsets in one process; seeded arbitrary server lists (duplicates, versions unknown to the library, any order/length) and discovery failing with other reasons; distinct = distinct configurations",
-		Required: []string{"dials.conformant", "dials.reused-options", "discovery_refused_in_a_1.0_message", "dials.discovery-unsupported", "dials.lists-not-offered", "dials.unordered", "dials.empty-list", "dials.discovery-unsupported-no-operation-echo", "dials.default-set", "dials.library-server", "dials.cluster", "dials.arbitrary-lists", "arbitrary.discovery-failed", "expected_failures", "followup_headers"},
+		Required: []string{"dials.conformant", "dials.reused-options", "dials.coexisting", "connections_dropped_between_requests", "discovery_refused_in_a_1.0_message", "dials.discovery-unsupported", "dials.lists-not-offered", "dials.unordered", "dials.empty-list", "dials.discovery-unsupported-no-operation-echo", "dials.default-set", "dials.library-server", "dials.cluster", "dials.arbitrary-lists", "arbitrary.discovery-failed", "expected_failures", "followup_headers"},
 		Families: []core.Family{
 			{Name: "scripted", Exhaustive: true, N: func(string) int { return 31 * 32 * 6 * 2 * 2 }, Run: scripted},
 			{Name: "library-server", Exhaustive: true, N: func(string) int { return 31 * 31 }, Run: libraryServer},
+			{Name: "coexisting-clients", N: func(tier string) int {
+				if tier == core.Thorough {
+					return 20000
+				}
+				return 400
+			}, Run: coexistingClients},
 			{Name: "reused-options", N: func(tier string) int {
 				if tier == core.Thorough {
 					return 40000
